@@ -15,10 +15,17 @@ use std::sync::atomic::{AtomicBool, AtomicU8, AtomicU64, Ordering};
 use std::task::{Context, Poll};
 use std::time::{Duration, Instant};
 
-use p2panda_core::Body;
+use std::collections::BTreeMap as Map;
+use std::sync::atomic::AtomicUsize;
+
+use futures_util::Stream;
+use p2panda_core::{Body, Hash, Operation, SeqNum, VerifyingKey};
 use p2panda_net::codec::Codec;
-use p2panda_sync::protocols::Logs;
+use p2panda_store::SqliteStore;
+use p2panda_store::logs::LogStore;
+use p2panda_sync::protocols::{LogSync, LogSyncEvent, Logs};
 use p2panda_sync::test_utils::{Peer, TestLogSyncMessage};
+use tokio::sync::broadcast;
 use p2panda_sync::traits::Protocol;
 use tokio::io::{AsyncRead, AsyncWrite, ReadBuf};
 use tokio_util::codec::{FramedRead, FramedWrite};
@@ -35,6 +42,101 @@ struct SideState {
     read: AtomicU64,
     write_polls_pending: AtomicU64,
     finished: AtomicBool,
+    /// Store calls of this side's session that have started and not yet returned.
+    store_calls_in_flight: AtomicUsize,
+    /// The session kept polling a stream that had ended (see `EndGuard`).
+    spinning_on_closed_stream: AtomicBool,
+}
+
+/// Delegating `LogStore` that publishes how many calls are in flight (the session is generic over
+/// its store, so no hook is needed). With it "last I/O poll was a pending read and no store call
+/// in flight" means the session is suspended in `stream.next()` and nowhere else.
+#[derive(Clone)]
+struct CountingStore {
+    inner: SqliteStore,
+    st: Arc<SideState>,
+}
+
+struct InFlight<'a>(&'a SideState);
+
+impl<'a> InFlight<'a> {
+    fn new(st: &'a SideState) -> Self {
+        st.store_calls_in_flight.fetch_add(1, Ordering::SeqCst);
+        InFlight(st)
+    }
+}
+
+impl Drop for InFlight<'_> {
+    fn drop(&mut self) {
+        self.0.store_calls_in_flight.fetch_sub(1, Ordering::SeqCst);
+    }
+}
+
+type Op = Operation<usize>;
+type Inner = SqliteStore;
+type StoreError = <Inner as LogStore<Op, VerifyingKey, usize, SeqNum, Hash>>::Error;
+
+impl LogStore<Op, VerifyingKey, usize, SeqNum, Hash> for CountingStore {
+    type Error = StoreError;
+
+    async fn get_latest_entry(&self, author: &VerifyingKey, log_id: &usize) -> Result<Option<Op>, Self::Error> {
+        let _g = InFlight::new(&self.st);
+        <Inner as LogStore<Op, VerifyingKey, usize, SeqNum, Hash>>::get_latest_entry(&self.inner, author, log_id).await
+    }
+    async fn get_latest_entry_tx(&self, author: &VerifyingKey, log_id: &usize) -> Result<Option<Op>, Self::Error> {
+        let _g = InFlight::new(&self.st);
+        <Inner as LogStore<Op, VerifyingKey, usize, SeqNum, Hash>>::get_latest_entry_tx(&self.inner, author, log_id).await
+    }
+    async fn get_log_heights(&self, author: &VerifyingKey, logs: &[usize]) -> Result<Option<Map<usize, SeqNum>>, Self::Error> {
+        let _g = InFlight::new(&self.st);
+        <Inner as LogStore<Op, VerifyingKey, usize, SeqNum, Hash>>::get_log_heights(&self.inner, author, logs).await
+    }
+    async fn get_log_size(&self, author: &VerifyingKey, log_id: &usize, after: Option<SeqNum>, until: Option<SeqNum>) -> Result<Option<(u32, u32)>, Self::Error> {
+        let _g = InFlight::new(&self.st);
+        <Inner as LogStore<Op, VerifyingKey, usize, SeqNum, Hash>>::get_log_size(&self.inner, author, log_id, after, until).await
+    }
+    async fn get_log_entries(&self, author: &VerifyingKey, log_id: &usize, after: Option<SeqNum>, until: Option<SeqNum>) -> Result<Option<Vec<(Op, Vec<u8>)>>, Self::Error> {
+        let _g = InFlight::new(&self.st);
+        <Inner as LogStore<Op, VerifyingKey, usize, SeqNum, Hash>>::get_log_entries(&self.inner, author, log_id, after, until).await
+    }
+    async fn prune_entries(&self, author: &VerifyingKey, log_id: &usize, until: &SeqNum) -> Result<u64, Self::Error> {
+        let _g = InFlight::new(&self.st);
+        <Inner as LogStore<Op, VerifyingKey, usize, SeqNum, Hash>>::prune_entries(&self.inner, author, log_id, until).await
+    }
+}
+
+/// Keeps the harness bounded: a session that polls an ended stream over and over without awaiting
+/// anything would spin the (single) runtime thread forever. After 1000 consecutive `None`s the
+/// guard marks the side and parks it.
+struct EndGuard<S> {
+    inner: S,
+    nones: u32,
+    st: Arc<SideState>,
+}
+
+impl<S: Stream + Unpin> Stream for EndGuard<S> {
+    type Item = S::Item;
+    fn poll_next(mut self: Pin<&mut Self>, cx: &mut Context<'_>) -> Poll<Option<Self::Item>> {
+        if self.st.spinning_on_closed_stream.load(Ordering::SeqCst) {
+            return Poll::Pending;
+        }
+        match Pin::new(&mut self.inner).poll_next(cx) {
+            Poll::Ready(None) => {
+                self.nones += 1;
+                if self.nones > 1000 {
+                    self.st.spinning_on_closed_stream.store(true, Ordering::SeqCst);
+                    return Poll::Pending;
+                }
+                Poll::Ready(None)
+            }
+            other => {
+                if matches!(other, Poll::Ready(Some(_))) {
+                    self.nones = 0;
+                }
+                other
+            }
+        }
+    }
 }
 
 struct W<T> {
@@ -105,6 +207,10 @@ struct Snap {
     rb: u64,
     fa: bool,
     fb: bool,
+    store_a: usize,
+    store_b: usize,
+    spin_a: bool,
+    spin_b: bool,
 }
 
 fn snap(a: &SideState, b: &SideState) -> Snap {
@@ -117,6 +223,10 @@ fn snap(a: &SideState, b: &SideState) -> Snap {
         rb: b.read.load(Ordering::SeqCst),
         fa: a.finished.load(Ordering::SeqCst),
         fb: b.finished.load(Ordering::SeqCst),
+        store_a: a.store_calls_in_flight.load(Ordering::SeqCst),
+        store_b: b.store_calls_in_flight.load(Ordering::SeqCst),
+        spin_a: a.spinning_on_closed_stream.load(Ordering::SeqCst),
+        spin_b: b.spinning_on_closed_stream.load(Ordering::SeqCst),
     }
 }
 
@@ -149,18 +259,21 @@ async fn one(cfg: &Config, case: u64, watchdog: Duration) -> (Outcome, u64, u64)
     let mut logs = Logs::default();
     logs.insert(peer_a.id(), vec![0usize]);
     logs.insert(peer_b.id(), vec![0usize]);
-    let (session_a, _events_a) = peer_a.log_sync_protocol(&logs);
-    let (session_b, _events_b) = peer_b.log_sync_protocol(&logs);
+    let st_a = Arc::new(SideState::default());
+    let st_b = Arc::new(SideState::default());
+    type Session = LogSync<usize, usize, CountingStore, LogSyncEvent<usize>>;
+    let (events_a_tx, _events_a) = broadcast::channel::<LogSyncEvent<usize>>(512);
+    let (events_b_tx, _events_b) = broadcast::channel::<LogSyncEvent<usize>>(512);
+    let session_a: Session = LogSync::new(CountingStore { inner: peer_a.store.clone(), st: st_a.clone() }, logs.clone(), events_a_tx);
+    let session_b: Session = LogSync::new(CountingStore { inner: peer_b.store.clone(), st: st_b.clone() }, logs.clone(), events_b_tx);
 
     let (pipe_a, pipe_b) = tokio::io::duplex(cfg.cap);
     let (ra, wa) = tokio::io::split(pipe_a);
     let (rb, wb) = tokio::io::split(pipe_b);
-    let st_a = Arc::new(SideState::default());
-    let st_b = Arc::new(SideState::default());
 
-    let run_side = |session: p2panda_sync::test_utils::TestLogSync, r, w, st: Arc<SideState>| async move {
+    let run_side = |session: Session, r, w, st: Arc<SideState>| async move {
         let mut sink = FramedWrite::new(W { inner: w, st: st.clone() }, Codec::<TestLogSyncMessage>::new());
-        let mut stream = FramedRead::new(R { inner: r, st: st.clone() }, Codec::<TestLogSyncMessage>::new());
+        let mut stream = EndGuard { inner: FramedRead::new(R { inner: r, st: st.clone() }, Codec::<TestLogSyncMessage>::new()), nones: 0, st: st.clone() };
         let res = session.run(&mut sink, &mut stream).await;
         st.finished.store(true, Ordering::SeqCst);
         // A finished peer closes its end of the connection (buffered bytes stay readable).
@@ -179,13 +292,23 @@ async fn one(cfg: &Config, case: u64, watchdog: Duration) -> (Outcome, u64, u64)
             tokio::time::sleep(Duration::from_millis(25)).await;
             let s = snap(&st_a, &st_b);
             let both_send = !s.fa && !s.fb && s.sa == BLOCKED_SEND && s.sb == BLOCKED_SEND && s.wa - s.rb == cap && s.wb - s.ra == cap;
-            // (A pending read is not a reliable "blocked" mark: `select!` polls the stream and then may
-            // sit in a store query inside the other arm, so only the send shape is a verdict.)
-            if both_send {
+            // The monitor shares one task with both sessions, so whenever it runs both sessions are
+            // suspended at an await point. "Last I/O poll was a pending read" alone is not enough
+            // (`select!` polls the stream and may then sit in a store query inside the other arm), so
+            // the stall shape also requires that no store call is in flight: then each session is
+            // suspended in `stream.next()` and nowhere else, both pipes are empty, and only the
+            // other side could ever write — nothing can make progress.
+            let both_recv = !s.fa && !s.fb && s.sa == BLOCKED_RECV && s.sb == BLOCKED_RECV && s.wa == s.rb && s.wb == s.ra
+                && s.store_a == 0 && s.store_b == 0;
+            if s.spin_a || s.spin_b {
+                return Outcome::Deadlock { shape: "stall:polling-a-closed-stream", snap: s };
+            }
+            if both_send || both_recv {
                 match candidate {
                     Some((c, since)) if c == s => {
                         if since.elapsed() >= Duration::from_millis(100) {
-                            return Outcome::Deadlock { shape: "both-blocked-in-send", snap: s };
+                            let shape = if both_send { "both-blocked-in-send" } else { "stall:both-waiting-in-recv:pipes-empty" };
+                            return Outcome::Deadlock { shape, snap: s };
                         }
                     }
                     _ => candidate = Some((s, Instant::now())),
@@ -211,8 +334,11 @@ pub fn run(args: &Args) {
         "configuration = duplex capacity n in {64 B .. 1 MiB} x operations per side in {0, 1, 3, 20} x \
          body size in {100 B, 8 KiB, 64 KiB}; both peers are real LogSync sessions over SqliteStore, \
          each syncing its own log to the other through FramedWrite/FramedRead with the real Codec. \
-         Non-trivial = both sides have more bytes to send than the pipe holds; distinct by \
-         (capacity, ops a, ops b, body size).",
+         Every 5th configuration has data on one side only. Verdicts on state: both blocked in a \
+         pending write with both pipes full; both suspended in stream.next() with both pipes empty and \
+         no store call in flight; a session polling an ended stream 1000 times in a row. Non-trivial = \
+         both sides have more bytes to send than the pipe holds; distinct by (capacity, ops a, ops b, \
+         body size).",
         10,
     );
     let rt = tokio::runtime::Builder::new_current_thread().enable_all().build().unwrap();
@@ -224,12 +350,26 @@ pub fn run(args: &Args) {
     let mut outcomes: BTreeMap<&'static str, u64> = BTreeMap::new();
     for i in 0..n {
         let mut rng = Rng::fork(args.seed, i);
-        let cfg = Config {
+        let mut cfg = Config {
             cap: caps[(i as usize) % caps.len()],
             ops_a: *rng.pick(&volumes),
             ops_b: *rng.pick(&volumes),
             body: *rng.pick(&bodies),
         };
+        // One-sided data is always part of the grid: every 5th configuration has data on one side only.
+        if i % 5 == 4 {
+            cfg.ops_a = *rng.pick(&volumes[1..]);
+            cfg.ops_b = 0;
+            if rng.bool() {
+                std::mem::swap(&mut cfg.ops_a, &mut cfg.ops_b);
+            }
+        }
+        if (cfg.ops_a == 0) != (cfg.ops_b == 0) {
+            rep.bump("one_sided_configurations", 1);
+        }
+        if cfg.ops_a > 0 && cfg.ops_b > 0 {
+            rep.bump("two_sided_configurations", 1);
+        }
         let (outcome, bytes_a, bytes_b) = rt.block_on(one(&cfg, args.seed.wrapping_mul(1_000_003).wrapping_add(i), watchdog));
         let nontrivial = bytes_a > cfg.cap as u64 && bytes_b > cfg.cap as u64;
         rep.case(if nontrivial { Some((cfg.cap, cfg.ops_a, cfg.ops_b, cfg.body)) } else { None });
@@ -237,6 +377,8 @@ pub fn run(args: &Args) {
                           "body_bytes": cfg.body, "outbound_bytes_a": bytes_a, "outbound_bytes_b": bytes_b});
         let snap_json = |s: &Snap| json!({"state_a": s.sa, "state_b": s.sb, "written_a": s.wa, "read_a": s.ra, "written_b": s.wb, "read_b": s.rb,
                                            "pipe_a_to_b": s.wa - s.rb, "pipe_b_to_a": s.wb - s.ra, "finished_a": s.fa, "finished_b": s.fb,
+                                           "store_calls_in_flight_a": s.store_a, "store_calls_in_flight_b": s.store_b,
+                                           "polling_closed_stream_a": s.spin_a, "polling_closed_stream_b": s.spin_b,
                                            "legend": "state 0 running, 1 blocked in send, 2 blocked in recv"});
         let label = match &outcome {
             Outcome::Completed { err_a, err_b } => {
@@ -255,7 +397,7 @@ pub fn run(args: &Args) {
                 w["snapshot"] = snap_json(snap);
                 rep.violation(
                     &format!("C21:{shape}"),
-                    format!("duplex({}) with {} / {} operations of {} B: both sessions {shape}, pipes {} / {} bytes of {}, no progress over >= 100 ms",
+                    format!("duplex({}) with {} / {} operations of {} B: sessions in state {shape}, pipes hold {} / {} bytes of {}, no store call in flight, no progress over >= 100 ms",
                             cfg.cap, cfg.ops_a, cfg.ops_b, cfg.body, snap.wa - snap.rb, snap.wb - snap.ra, cfg.cap),
                     w,
                 );
